@@ -174,6 +174,9 @@ class Ctx:
         if cond is False:
             return False
         r = self.check_sat([T.lnot(cond)], timeout_ms=min(self.timeout_ms, 3000))
+        if r == z3.unknown:
+            # a definite answer is wanted here (the caller builds structure on it): larger budget before giving up
+            r = self.check_sat([T.lnot(cond)], timeout_ms=min(self.timeout_ms, 3000) * int(os.environ.get("VF_RETRY_FACTOR", "6")))
         return r == z3.unsat
 
     # ---------------------------------------------------------------- branching
@@ -352,17 +355,28 @@ def discharge(ob, timeout_ms=10000):
             if not z3.is_quantifier(h):
                 s0.add(h)
         r0 = s0.check()
+        if r0 == z3.unknown:
+            # busy machine / hard path condition: decide the path's feasibility with the full budget (all hypotheses)
+            s0 = z3.Solver()
+            s0.set("timeout", int(timeout_ms) * int(os.environ.get("VF_RETRY_FACTOR", "6")))
+            for h in ob.hyps:
+                s0.add(h)
+            r0 = s0.check()
         ob.time_s = time.time() - t0
         ob.backend = "z3-" + z3.get_version_string()
         if r0 == z3.unsat:
             ob.status = "proved"
-        else:
+        elif r0 == z3.sat:
             ob.status = "refuted"
             try:
-                m = s0.model() if r0 == z3.sat else None
-                ob.model = {str(d): str(m[d]) for d in m.decls() if d.arity() == 0} if m is not None else {}
+                m = s0.model()
+                ob.model = {str(d): str(m[d]) for d in m.decls() if d.arity() == 0}
             except Exception:
                 ob.model = {}
+        else:
+            # the goal is false on this path but the path could not be shown feasible: undecided, not a refutation
+            ob.status = "unknown"
+            ob.note = (ob.note + " " if ob.note else "") + f"goal is false on this path; feasibility of the path: z3 {s0.reason_unknown()}"
         return ob
     s = z3.Solver()
     s.set("timeout", int(timeout_ms))
@@ -385,6 +399,19 @@ def discharge(ob, timeout_ms=10000):
                 r = z3.unsat
                 ob.note = (ob.note + " " if ob.note else "") + "[proved from the linear hypotheses only]"
             ob.time_s = time.time() - t0
+    if r == z3.unknown and "timeout" in (s.reason_unknown() or "") + "timeout":
+        # a busy machine must not flip a verdict: one more attempt with a much larger budget and another seed
+        s4 = z3.Solver()
+        s4.set("timeout", int(timeout_ms) * int(os.environ.get("VF_RETRY_FACTOR", "6")))
+        s4.set("random_seed", 7)
+        for h in ob.hyps:
+            s4.add(h)
+        s4.add(z3.Not(ob.goal))
+        r4 = s4.check()
+        if r4 != z3.unknown:
+            r, s = r4, s4
+            ob.note = (ob.note + " " if ob.note else "") + "[decided on the second attempt with a larger budget]"
+        ob.time_s = time.time() - t0
     weak = False
     if r == z3.unknown:
         # counter-model search on the ground hypotheses only (quantified invariants/laws dropped): a model found
